@@ -300,11 +300,17 @@ pub fn shapes(alpha: &[Sym], max_len: usize) -> Vec<Vec<Sym>> {
 fn grid(tier: Tier, classes: &mut BTreeMap<String, u64>, found: &mut Vec<Found>) -> u64 {
     let mut cells = 0u64;
     // (collateral $, debt $): standard; assets >= $5 but net equity < $5; assets just under / over $5
-    let portfolios: Vec<(&str, f64, f64)> = vec![("std", 1000.0, 860.0), ("thin_equity", 100.0, 96.0), ("assets_4.99", 4.99, 4.5), ("assets_5.01", 5.01, 4.5), ("deep", 1000.0, 2000.0)];
+    let portfolios: Vec<(&str, f64, f64)> = vec![("std", 1000.0, 860.0), ("thin_equity", 100.0, 96.0), ("assets_4.99", 4.99, 4.5), ("assets_5.01", 5.01, 4.5), ("deep", 1000.0, 2000.0), ("std_reduce_only", 1000.0, 860.0)];
     let fees: Vec<f64> = if tier == Tier::Quick { vec![0.0, 0.10] } else { vec![0.0, 0.05, 0.10, 0.25] };
     for (fi, fee) in fees.iter().enumerate() {
         for (pi, (pname, coll, debt)) in portfolios.iter().enumerate() {
-            let sc = scene(&format!("g{fi}{pi}"), *fee, [*coll, *coll], [*debt, *debt]);
+            let mut sc = scene(&format!("g{fi}{pi}"), *fee, [*coll, *coll], [*debt, *debt]);
+            if pname.ends_with("reduce_only") {
+                // the admin has put the collateral bank into reduce-only mode: withdrawals still work and the
+                // collateral still counts in full for maintenance health and for the seized-vs-repaid comparison
+                let k = sc.w.banks[0].key;
+                crate::world::edit_bank(&mut sc.s, &k, |b| b.config.operational_state = marginfi_type_crate::types::BankOperationalState::ReduceOnly);
+            }
             let w = &sc.w;
             let acct = w.users[0].account;
             let liq = w.users[sc.liq].authority;
